@@ -468,6 +468,36 @@ def r06_13(chk):
     chk.floor("R06.13", 1, "the comment test of the strict parser")
 
 
+def r06_14(chk):
+    chk.rule("R06.14", "a file name is not mistaken for a URL: in util/io.py the scheme pattern (`^(http[s]*|file)`, no delimiter) is only ever matched against a parsed scheme (`<...>.scheme`); a site that matches a whole path against a pattern must use one that rejects 'file1.fasta' and 'https_set.phylip' -- otherwise a file the writers wrote under such a name cannot be loaded back")
+    import re as _re
+
+    m = chk.repo.module("util/io.py")
+    pats = {}
+    for st in m.tree.body:
+        if isinstance(st, ast.Assign) and isinstance(st.value, ast.Call) and (call_name(st.value) or "").split(".")[-1] == "compile" and st.value.args and isinstance(st.value.args[0], ast.Constant) and isinstance(st.value.args[0].value, str):
+            for t in st.targets:
+                if isinstance(t, ast.Name):
+                    pats[t.id] = st.value.args[0].value
+    if "_urls" not in pats:
+        raise AnalysisError("util/io.py: _urls pattern not found")
+    n = 0
+    for q, fn in m.all_functions():
+        for c in walk_no_nested(fn):
+            if not (isinstance(c, ast.Call) and isinstance(c.func, ast.Attribute) and c.func.attr in ("search", "match") and isinstance(c.func.value, ast.Name) and c.func.value.id in pats and c.args):
+                continue
+            pat = pats[c.func.value.id]
+            if not any(w in pat for w in ("http", "file")):
+                continue
+            n += 1
+            arg = c.args[0]
+            on_scheme = any(isinstance(x, ast.Attribute) and x.attr == "scheme" for x in ast.walk(arg))
+            rx = _re.compile(pat)
+            rejects = not any(getattr(rx, c.func.attr)(probe) for probe in ("file1.fasta", "https_set.phylip", "filename", "http_results/x.fa"))
+            chk.decide(on_scheme or rejects, "R06.14", key(m, q, f"{c.func.value.id}.{c.func.attr}({norm(arg)[:30]})"), m.loc(c), "matched against a parsed scheme" if on_scheme else "the pattern requires a scheme delimiter", f"`{norm(c)}` matches the scheme pattern {pat!r} against a whole file name: 'file1.fasta' and 'https_set.phylip' are taken for URLs (aln.write('file1.fasta') succeeds, load_aligned_seqs('file1.fasta') raises ValueError: URL scheme must be http, https or file)")
+    chk.floor("R06.14", 2, "the URL tests of open_ / open_url / iter_splitlines")
+
+
 def r06_9(chk):
     chk.rule("R06.9", "GenBank bytes parser: records are split on the line-anchored terminator b'\\n//'; because that separator begins with the newline of the previous line, every later piece starts with a newline -- the piece is left-trimmed before its first line (LOCUS) is taken, and the guard that skips the piece after the last terminator also covers the empty piece (`not piece`, not just piece.isspace())")
     from ..cfg import build
@@ -556,6 +586,7 @@ def r06_11(chk):
 
 
 def run(chk):
+    r06_14(chk)
     r06_13(chk)
     r06_12(chk)
     r06_11(chk)
